@@ -27,6 +27,22 @@ package collection
 //@   ensures [value] result1 ==> result0.val == smGet(m, key) && result0.tag == smTag(m, key)
 //@   modifies nothing
 
+//@ func (*SafeMap).Del
+//@   prop C10
+//@   trusted map-range migration loops are outside the engine's proved subset; the abstract effect is assumed
+//@   requires m != nil
+//@   ensures forallk(k, int, smHas(m, k) == (old(smHas(m, k)) && k != ifacekey(key)))
+//@   ensures forallk(k, int, smHas(m, k) ==> smGet(m, k) == old(smGet(m, k)) && smTag(m, k) == old(smTag(m, k)))
+//@   modifies m.dirtyOld, m.dirtyNew, m.deletionOld, m.deletionNew, mapsof(m.dirtyOld)
+
+//@ func (*SafeMap).Put
+//@   prop C10
+//@   requires m != nil && m.dirtyOld != nil && m.dirtyNew != nil
+//@   ensures [has] forallk(k, int, smHas(m, k) == (old(smHas(m, k)) || k == ifacekey(key)))
+//@   ensures [others] forallk(k, int, k != ifacekey(key) && smHas(m, k) ==> smGet(m, k) == old(smGet(m, k)) && smTag(m, k) == old(smTag(m, k)))
+//@   ensures [stored] smGet(m, ifacekey(key)) == val.val && smTag(m, ifacekey(key)) == val.tag
+//@   modifies m.deletionOld, m.deletionNew, mapsof(m.dirtyOld)
+
 // R(entry) = number of ticks until the entry fires: reach its slot, wait `circle` revolutions, then (if it
 // has a pending shift `diff`) walk to the shifted slot.
 //@ spec untilFire(p int, c int, d int, t int, n int) int = ticksUntil(p, t, n) + c*n + ite(d > 0, ticksUntil(wrap(p + d - n*ite(p + d >= 2*n, 1, 0), n), p, n), 0)
@@ -58,3 +74,82 @@ package collection
 //@   ensures [absent] !found ==> calls(PushBack) == 0 && calls(Put) == 0
 //@   ensures [reschedule] found && task.delay >= w.interval ==>
 //@     | untilFire(timer.pos, timer.item.circle, timer.item.diff, w.tickedPos, w.numSlots) == task.delay / w.interval
+
+// One scan step over the entry `e` of the slot being ticked (four-way case split, in this order):
+//   removed            -> dropped from the slot, not run, index untouched
+//   circle > 0         -> one revolution less, stays
+//   diff > 0           -> moved to slot (tickedPos+diff) mod N with diff cleared, index updated
+//   otherwise          -> fires: handed to runTasks with its key/value, removed from slot and index
+//@ func (*TimingWheel).scanAndRunTasks
+//@   prop C10
+//@   opaque runTasks, setTimerPosition
+//@   requires twOK(w) && l != nil
+//@   let e0 = at_head(e)
+//@   let t = unbox(at_head(e.Value), ptr(timingEntry))
+//@   let removed0 = at_head(unbox(e.Value, ptr(timingEntry)).removed)
+//@   let circle0 = at_head(unbox(e.Value, ptr(timingEntry)).circle)
+//@   let diff0 = at_head(unbox(e.Value, ptr(timingEntry)).diff)
+//@   let n0 = at_head(len(tasks))
+//@   loop 1 iteration-ensures [removed-dropped] removed0 ==> calls(l.Remove, e0) == 1 && calls(PushBack) == 0 && calls(Del) == 0 && calls(setTimerPosition) == 0 && len(tasks) == n0
+//@   loop 1 iteration-ensures [waiting] !removed0 && circle0 > 0 ==> t.circle == circle0 - 1 && calls(Remove) == 0 && calls(PushBack) == 0 && calls(Del) == 0 && len(tasks) == n0
+//@   loop 1 iteration-ensures [relocated] !removed0 && circle0 <= 0 && diff0 > 0 ==> calls(l.Remove, e0) == 1 && calls(PushBack) == 1
+//@     | && arg(PushBack, 0) == w.slots[(w.tickedPos + diff0) % w.numSlots] && unbox(arg(PushBack, 1), ptr(timingEntry)) == t
+//@     | && calls(w.setTimerPosition, (w.tickedPos + diff0) % w.numSlots, t) == 1 && t.diff == 0 && calls(Del) == 0 && len(tasks) == n0
+//@   loop 1 iteration-ensures [fired] !removed0 && circle0 <= 0 && diff0 <= 0 ==> len(tasks) == n0 + 1 && tasks[n0].key == t.key && tasks[n0].value == t.value
+//@     | && calls(l.Remove, e0) == 1 && calls(w.timers.Del, t.key) == 1 && calls(PushBack) == 0
+//@   loop 1 iteration-ensures [advance] e == ret(e0.Next)
+//@   ensures [handed-over] calls(w.runTasks) == 1
+
+// A tick advances the wheel by one slot and scans exactly that slot.
+//@ func (*TimingWheel).onTick
+//@   prop C10
+//@   opaque scanAndRunTasks
+//@   requires twOK(w)
+//@   ensures [advance] w.tickedPos == wrap(old(w.tickedPos) + 1, w.numSlots) && w.numSlots == old(w.numSlots)
+//@   ensures [scan-current-slot] calls(w.scanAndRunTasks, w.slots[w.tickedPos]) == 1 && calls(scanAndRunTasks) == 1
+
+// setTask: a new key is placed floor(delay/I) ticks ahead (delays below I count as I); an existing key gets
+// the new value and is re-scheduled through moveTask with the (clamped) delay.
+//@ func (*TimingWheel).setTask
+//@   prop C10
+//@   opaque moveTask, setTimerPosition
+//@   requires twOK(w) && twTimersOK(w) && task != nil
+//@   let found = ret(Get, 1, 1)
+//@   let delay0 = max(old(task.delay), w.interval)
+//@   let posEntry = unbox(ret(Get, 0, 1), ptr(positionEntry))
+//@   ensures [clamp] task.delay == delay0
+//@   ensures [new-key] !found ==> calls(PushBack) == 1 && calls(moveTask) == 0
+//@     | && exists(p, 0, w.numSlots, arg(PushBack, 0) == w.slots[p] && calls(w.setTimerPosition, p, task) == 1
+//@     |      && untilFire(p, task.circle, 0, w.tickedPos, w.numSlots) == delay0 / w.interval)
+//@     | && unbox(arg(PushBack, 1), ptr(timingEntry)) == task && task.diff == old(task.diff)
+//@   ensures [existing-key] found ==> posEntry.item.value == task.value && calls(PushBack) == 0
+//@     | && calls(moveTask) == 1 && arg(moveTask, 1).delay == delay0 && arg(moveTask, 1).key == task.key
+
+// removeTask: tombstone the live entry and drop it from the index; nothing happens for an unknown key.
+//@ func (*TimingWheel).removeTask
+//@   prop C10
+//@   requires twOK(w) && twTimersOK(w)
+//@   let found = ret(Get, 1, 1)
+//@   let posEntry = unbox(ret(Get, 0, 1), ptr(positionEntry))
+//@   ensures [tombstone] found ==> posEntry.item.removed && calls(w.timers.Del, key) == 1
+//@   ensures [unknown] !found ==> calls(Del) == 0
+
+// Invalid arguments are refused before anything is handed to the wheel goroutine.
+//@ func (*TimingWheel).SetTimer
+//@   prop C10
+//@   requires w != nil
+//@   ensures [invalid] delay <= 0 || key == nil ==> result == ErrArgument && calls("send") == 0
+//@   ensures [valid] delay > 0 && key != nil ==> result == nil || result == ErrClosed
+//@   modifies nothing
+//@ func (*TimingWheel).MoveTimer
+//@   prop C10
+//@   requires w != nil
+//@   ensures [invalid] delay <= 0 || key == nil ==> result == ErrArgument && calls("send") == 0
+//@   ensures [valid] delay > 0 && key != nil ==> result == nil || result == ErrClosed
+//@   modifies nothing
+//@ func (*TimingWheel).RemoveTimer
+//@   prop C10
+//@   requires w != nil
+//@   ensures [invalid] key == nil ==> result == ErrArgument && calls("send") == 0
+//@   ensures [valid] key != nil ==> result == nil || result == ErrClosed
+//@   modifies nothing
